@@ -1949,23 +1949,27 @@ func (ctx *primaryCtx) Value(key any) any {
 // removeFilesExcept removes all files from a directory except a given filename.
 // Attempts to remove all files, even in the event of an error. Returns the
 // first error encountered.
-func removeFilesExcept(osys OS, dir, filename string) (retErr error) {
+func removeFilesExcept(osys OS, dir, filename string) error {
 	ents, err := osys.ReadDir("REMOVEFILESEXCEPT", dir)
 	if err != nil {
 		return err
 	}
 
+	// Entries are sorted by name so LTX files go in ascending TXID order. Stop
+	// at the first failure: removing the files behind one that cannot be
+	// removed would leave that one as the newest file of the log while the
+	// database is still at the position of the ones that were removed.
 	for _, ent := range ents {
 		// Skip directories & exception file.
 		if ent.IsDir() || ent.Name() == filename {
 			continue
 		}
-		if err := osys.Remove("REMOVEFILESEXCEPT", filepath.Join(dir, ent.Name())); retErr == nil {
-			retErr = err
+		if err := osys.Remove("REMOVEFILESEXCEPT", filepath.Join(dir, ent.Name())); err != nil {
+			return err
 		}
 	}
 
-	return retErr
+	return nil
 }
 
 // sleepWithContext sleeps for a given amount of time or until the context is canceled.
